@@ -68,6 +68,20 @@ def native_check(seed=0, trees=60, depth=6):
         n += 1
         if not torch.allclose(o.apply(st, samples), f(samples), rtol=1e-10, atol=1e-12):
             fails.append((repr(o), "sum of two observables that share a name differs from the sum of their values"))
+    # history: the same composite evaluated again on the same tensor object after the chains moved in place, and after
+    # the state's parameters changed
+    H = -1 * NeighbourInteraction(c=1) - 3 * SigmaX() + 1
+    ref = lambda s_, smp: -1 * NeighbourInteraction(c=1).apply(s_, smp) - 3 * SigmaX().apply(s_, smp) + 1      # noqa: E731
+    smp = torch.tensor(rng.integers(0, 2, size=(6, 3)), dtype=torch.double)
+    H.apply(st, smp)
+    smp.copy_(1 - smp)
+    n += 1
+    if not torch.allclose(H.apply(st, smp), ref(st, smp), rtol=1e-10, atol=1e-12):
+        fails.append((repr(H), "second evaluation on the same tensor object after an in-place change of the samples is stale"))
+    C.randomize(st, rng, 0.7)
+    n += 1
+    if not torch.allclose(H.apply(st, smp), ref(st, smp), rtol=1e-10, atol=1e-12):
+        fails.append((repr(H), "evaluation after the state's parameters changed is stale"))
     for bad in (lambda: SigmaX() * SigmaZ(), lambda: ProdObservable(2, 3)):
         try:
             bad()
